@@ -2,6 +2,7 @@ import Driver.Index
 import Driver.IndexRows
 import OrdModel.Server.Views
 import OrdModel.Server.Oracle
+import OrdModel.Generated.ViewsFixes
 /-
 Driver extension of work stream "views" (C18): every explorer JSON route / recursive endpoint is
 answered from the MODEL state the index driver has built from the block lines.
@@ -40,6 +41,9 @@ Oracle lines (evaluated on the implementation's own rows / answers):
 -/
 namespace Driver.Views
 open Ord Ord.Index Ord.Server Driver.Index
+
+/-- the repairs present in the source (re-extracted on every run by tools/extractors/views_fixes.py) -/
+def fx : Fixes := ⟨Generated.pageOverflowFixed, Generated.nullOutpointFixed⟩
 
 def parseOutPoint (s : String) : Option OutPoint :=
   match s.splitOn ":" with
@@ -254,22 +258,22 @@ def handle (s : S) (ts : List String) : Option String :=
     let node ← parseNode node
     some (resp insView (inscriptionInfo st query child node))
   | ["v.rins", i, node] => do
-    some (resp rInsView (rInscription st (← parseId i) (← parseNode node)))
+    some (resp rInsView (rInscription fx st (← parseId i) (← parseNode node)))
   | ["v.out", o, node] => do
     some (resp outView (outputView cfg st (← parseOutPoint o) (← parseNode node)))
   | ["v.utxo", o] => do some (resp utxoView (Server.utxoView cfg st (← parseOutPoint o)))
-  | ["v.children", i, p] => do some (resp (page ids) (childrenPage st (← parseId i) (← p.toNat?)))
-  | ["v.rparents", i, p] => do some (resp (page ids) (parentsPage st (← parseId i) (← p.toNat?)))
+  | ["v.children", i, p] => do some (resp (page ids) (childrenPage fx st (← parseId i) (← p.toNat?)))
+  | ["v.rparents", i, p] => do some (resp (page ids) (parentsPage fx st (← parseId i) (← p.toNat?)))
   | ["v.rchildins", i, p] => do
-    some (resp (page (fun l => joinOr (l.map relView) ",")) (childInscriptionsPage st (← parseId i) (← p.toNat?)))
+    some (resp (page (fun l => joinOr (l.map relView) ",")) (childInscriptionsPage fx st (← parseId i) (← p.toNat?)))
   | ["v.rparentins", i, p] => do
-    some (resp (page (fun l => joinOr (l.map relView) ",")) (parentInscriptionsPage st (← parseId i) (← p.toNat?)))
+    some (resp (page (fun l => joinOr (l.map relView) ",")) (parentInscriptionsPage fx st (← parseId i) (← p.toNat?)))
   | ["v.rsat", n, p] => do some (resp (page ids) (satPage cfg st (← n.toNat?) (← p.toNat?)))
   | ["v.rsatat", n, i] => do some (resp (optS (·.render)) (satAt cfg st (← n.toNat?) (← parseInt i)))
   | ["v.insblock", h, p] => do some (resp (page ids) (inBlockPage st (← h.toNat?) (← p.toNat?)))
   | ["v.latest", p] => do some (resp (page ids) (latestPage st (← p.toNat?)))
   | ["v.galleries", p] => do some (resp (page ids) (galleriesPage st (← p.toNat?)))
-  | ["v.sat", n, node] => do some (resp satView (Server.satView st (← n.toNat?) (← parseNode node)))
+  | ["v.sat", n, node] => do some (resp satView (Server.satView fx st (← n.toNat?) (← parseNode node)))
   | ["v.block", h] => do some (resp blockView (Server.blockView st (← h.toNat?)))
   | ["v.rune", r] => do some (resp runeView (Server.runeView cfg st (← r.toNat?)))
   | ["v.runeid", i] => do some (optNat (runeOfId st (← parseRuneId i)))
